@@ -74,12 +74,14 @@ def make_spec(placement, producer):
     entries = {"produce": {"kind": "eval", "fn": "root_p"}, "read": {"kind": "eval", "fn": "root_r"},
                "both": {"kind": "eval", "fn": "root_both"}, "reversed": {"kind": "eval", "fn": "root_rev"},
                "skipped_producer": {"kind": "eval", "fn": "root_skip"}}
+    # the reading pipeline is itself kept, at the top level, under the very path it reads: the path is produced when it returns
+    entries["self_reference"] = {"kind": "keep", "fn": "root_r", "path": "/l/p"}
     if placement == "kept_datafn":
         entries["read_direct"] = {"kind": "call", "fn": "K"}
     vars_ = [{"name": "VP", "module": "main", "values": ["1", "2"]}, {"name": "VQ", "module": "main", "values": ["1", "2"]}]
     eps = [{"id": "VP", "kind": "producer_var", "n": 2}] + ([{"id": "VQ", "kind": "producer_var", "n": 2}] if two else [])
     return {"id": f"L/{placement}/{producer}", "key": f"load={placement}|producer={producer}", "modules": ["main"], "vars": vars_, "funcs": funcs,
-            "entries": entries, "eps": eps, "expect_error": {"reversed": "dds"}, "may_reject": ["skipped_producer"]}
+            "entries": entries, "eps": eps, "expect_error": {"reversed": "dds", "self_reference": "dds"}, "may_reject": ["skipped_producer"]}
 
 
 def plan(tier):
